@@ -63,6 +63,11 @@ type ArchiveDecoder struct {
 	d    FormatDecoder
 	dir  string
 	last interface{}
+
+	// Number of nodes returned so far, and whether the first one was something
+	// other than a directory (an archive of a single file, symlink or device)
+	nodes      int
+	rootNotDir bool
 }
 
 // NewArchiveDecoder initializes a decoder for a catar archive.
@@ -166,8 +171,20 @@ loop:
 		}
 	}
 
+	// Only the first node of an archive, its root, comes without a filename: any
+	// other node without one would replace the directory currently being unpacked.
+	// And nothing can follow a root that is not a directory.
+	isDir := payload == nil && device == nil && symlink == nil
+	if a.nodes > 0 && (name == "" || a.rootNotDir) {
+		return nil, InvalidFormat{"entry without filename"}
+	}
+	if a.nodes == 0 && name == "" && !isDir {
+		a.rootNotDir = true
+	}
+	a.nodes++
+
 	// If it doesn't have a payload or is a device/symlink, it must be a directory
-	if payload == nil && device == nil && symlink == nil {
+	if isDir {
 		a.dir = path.Join(a.dir, name)
 		return NodeDirectory{
 			Name:   a.dir,
